@@ -447,7 +447,16 @@ def rule_f(ctx: Context, R: Reporter, fit: FuncInfo):
             R.check("C19.f", f"{m.short} is equivariant under per-coordinate scaling up to the fit (typing closed)", True, m, m.node, key=f"coord-clean:{m.name}")
 
 
+def rule_stateless(ctx: Context, R: Reporter):
+    """C19.g  the step object is a function of the state object it works on: no method other than the constructor stores
+    state-derived data in the step object for a later call to read back."""
+    from ..util import stateless_steps_rule
+
+    stateless_steps_rule(ctx, R, "C19.g", ("Trainer",), "the kernel is driven by a proposal fitted to an earlier particle set / earlier weights")
+
+
 def run(ctx: Context, R: Reporter):
+    R.guard(rule_stateless, ctx, R)
     fit = fit_fn(ctx)
     R.guard(rule_a, ctx, R, fit)
     R.guard(rule_b, ctx, R, fit)
@@ -464,7 +473,11 @@ def variants():
     st = "tempest/student.py"
     from .c14 import _drop_dof_guard
 
+    from ..variants import insert_before as _ib
+
     return [
+        Variant("g-trainer-caches-mode-stats", "bad", _ib("tempest/steps/train.py", "Trainer.run", "return mode_stats", "if refit:\n    self._mode_stats = mode_stats\nelse:\n    mode_stats = getattr(self, '_mode_stats', mode_stats)"), ["C19.g"], quick=True),
+        Variant("g-benign-trainer-diagnostic", "benign", _ib("tempest/steps/train.py", "Trainer.run", "return mode_stats", "self._last_K = mode_stats.K")),
         Variant("a-bracket-lower-moderate", "bad", replace_expr(st, "fit_mvstud", "optimize.bisect(func0, 1e-300, 1e300)", "optimize.bisect(func0, 1e-3, 1e300)"), ["C19.a"], quick=True),
         Variant("a-bracket-upper-unguarded", "bad", replace_expr(st, "fit_mvstud", "optimize.bisect(func0, 1e-300, 1e300)", "optimize.bisect(func0, 1e-300, 1e6)"), ["C19.a"]),
         Variant("a-bracket-lower-still-tiny-benign", "benign", replace_expr(st, "fit_mvstud", "optimize.bisect(func0, 1e-300, 1e300)", "optimize.bisect(func0, 1e-200, 1e300)")),
